@@ -54,6 +54,8 @@ def generate(rng, tier):
 def compare(rec):
     if rec["case"].startswith("cli "):
         return _plan.cli_compare(rec)
+    if rec["case"].startswith("plan "):
+        return _plan.plan_compare(rec)
     if rec["model"] == "-":
         return None
     if rec["impl"] != rec["model"]:
